@@ -277,6 +277,12 @@ pub fn grid() -> Vec<Case> {
                                 t0.push(Op::Chunk { n, take: 2 });
                                 t0.extend(tail.clone());
                             }
+                            if (si + ti) % 2 == 0 && n >= H {
+                                // the same after one ordinary pull: begin > 0 when the huge size arrives
+                                let mut p0 = vec![Op::Next];
+                                p0.extend(t0.clone());
+                                out.push(mk(kind, 0, s, Some(e), Hint::Exact, p0, t1.clone(), term));
+                            }
                             out.push(mk(kind, 0, s, Some(e), Hint::Exact, t0, t1, term));
                         }
                     }
@@ -310,6 +316,11 @@ pub fn grid() -> Vec<Case> {
                             } else {
                                 t0.push(Op::Chunk { n, take: 2 });
                                 t0.extend(tail.clone());
+                            }
+                            if n >= H {
+                                let mut p0 = vec![Op::NextIdVal];
+                                p0.extend(t0.clone());
+                                out.push(mk(kind, len, 0, None, hint, p0, t1.clone(), term));
                             }
                             out.push(mk(kind, len, 0, None, hint, t0, t1, term));
                         }
